@@ -78,10 +78,14 @@ class Kernel:
 
     TTY = 0
 
-    def __init__(self, chooser, env):
+    def __init__(self, chooser, env, tty_fd=0, lowest_free=False):
+        """tty_fd: descriptor number of the terminal. lowest_free: new descriptors get the lowest free number, as in a real kernel
+        (with the terminal on a high number and the standard descriptors closed, the first pipe is 0 and 1); otherwise 3, 4, 5 ..."""
         self.ch = chooser
         self.env = env  # Environment: pending events, deliver()
-        self.fds = {0: {"buf": bytearray(), "flags": 0, "peer": None, "kind": "tty"}}
+        self.TTY = tty_fd
+        self.lowest_free = lowest_free
+        self.fds = {tty_fd: {"buf": bytearray(), "flags": 0, "peer": None, "kind": "tty"}}
         self.next_fd = 3
         self.clock = 1000.0
         self.handlers = {SIGINT: "default_int_handler"}
@@ -120,8 +124,19 @@ class Kernel:
     # ---- os ---------------------------------------------------------------------------------------------
     def pipe(self):
         self.point("pipe")
-        r, w = self.next_fd, self.next_fd + 1
-        self.next_fd += 2
+        if self.lowest_free:
+            free = []
+            n = 0
+            while len(free) < 2:
+                if n not in self.fds or n in self.closed:
+                    free.append(n)
+                n += 1
+            r, w = free
+            self.closed.discard(r)
+            self.closed.discard(w)
+        else:
+            r, w = self.next_fd, self.next_fd + 1
+            self.next_fd += 2
         self.fds[r] = {"buf": bytearray(), "flags": 0, "peer": None, "kind": "pipe_r"}
         self.fds[w] = {"buf": None, "flags": 0, "peer": r, "kind": "pipe_w"}
         return r, w
@@ -212,6 +227,17 @@ class Kernel:
         old = self.wakeup_fd
         self.wakeup_fd = fd
         return old
+
+    def deliver_signal(self, signum):
+        """A signal other than SIGINT for which the program installed a Python handler: the C-level handler writes the number to the
+        wake-up fd, then the Python handler runs."""
+        h = self.handlers.get(signum)
+        if not callable(h):
+            return  # default / ignored: no C-level handler of CPython's, nothing is written
+        if self.wakeup_fd != -1 and self.wakeup_fd not in self.closed:
+            w = self.fds[self.wakeup_fd]
+            self.fds[w["peer"]]["buf"].extend(bytes([signum]))
+        h(signum, None)
 
     def deliver_sigint(self):
         """C-level handler: write the signal number to the wake-up fd at once; then the Python-level handler runs (we are at a
